@@ -2,20 +2,19 @@
 SPECIFICATION Spec
 CONSTANTS
  KindOf = 0
- Procs = {1, 2, 3}
+ Procs = {1, 2}
  OpProcs = {1}
  TxProcs = {2}
- RemoteProcs = {3}
+ RemoteProcs = {}
+ FailProcs = {2}
  Calls = 1
  TxLen = 2
  Guarded = TRUE
- FailProcs = {}
 INVARIANT NoCrash
 INVARIANT MutualExclusion
 INVARIANT NoLostUnlock
 INVARIANT NoLostUpdate
 INVARIANT QueuedOnce
 INVARIANT TxContiguous
-VIEW StateView
-ACTION_CONSTRAINT EdgeDump
+ACTION_CONSTRAINT FinalDump
 CHECK_DEADLOCK FALSE
